@@ -614,6 +614,7 @@ def _compile(g):
 
 def main(tier):
     run = check.Run(PID, tier)
+    check.JOB_BUDGET[0] = 300 if tier == 'quick' else 3000
     groups = list(G.BASIC.values()) + grouptu.bundle_shapes(tier)
     check.run_jobs([(_compile, (g,)) for g in groups])
     rt = groups if tier == "thorough" else [G.BASIC[n] for n in ("SO2", "SO3", "SE2", "C1", "SE3")]
